@@ -802,6 +802,18 @@ def arith(op, *args, w=None):
             return args[1]
         if args[1].op == 'const' and args[1].args[0] == 0:
             return args[0]
+        # constant + {low part, 0...0}: when the sum cannot carry into the known-zero high part (the low part bounded with every unknown bit set), the addition is
+        # confined to the low part
+        for i in (0, 1):
+            c, x = args[i], args[1 - i]
+            if c.op == 'const' and x.op == 'concat' and len(x.args) > 1 and x.args[-1].op == 'const' and c.args[0] < (1 << (w - 1)):
+                hi_ = pos = 0
+                for p_ in x.args:
+                    hi_ |= (p_.args[0] if p_.op == 'const' else ((1 << p_.w) - 1)) << pos
+                    pos += p_.w
+                lw = (c.args[0] + hi_).bit_length()
+                if 0 < lw < w and hi_ < (1 << lw):
+                    return concat([arith('add', slice_(x, 0, lw), const(lw, c.args[0])), zeros(w - lw)])
         # constant with k low zero bits + x: the low k bits of x pass through, the addition happens above them
         for i in (0, 1):
             c, x = args[i], args[1 - i]
@@ -1020,6 +1032,42 @@ def make(op, args, w):
                 return const(w, v >> k)
             sv = v - (1 << w) if (v >> (w - 1)) & 1 else v
             return const(w, (sv >> k) & ((1 << w) - 1))
+    if op == 'overflow' and args[1].op == 'const' and args[2].op == 'const':
+        kind, ww = args[0], args[1].w
+        x, y = args[1].args[0], args[2].args[0]
+        if kind[0] == 's':
+            x, y = sval(args[1]), sval(args[2])
+            r = x + y if kind == 'sadd' else x - y if kind == 'ssub' else x * y
+            return TRUE if not (-(1 << (ww - 1)) <= r < (1 << (ww - 1))) else FALSE
+        r = x + y if kind == 'uadd' else x - y if kind == 'usub' else x * y
+        return TRUE if not (0 <= r < (1 << ww)) else FALSE
+    if op == 'overflow' and args[0] in ('sadd', 'ssub'):
+        # operands that are known to be non-negative and bounded (a constant, or a concatenation whose top bit is a known 0): the exact range of the result decides
+        def bounds(t_):
+            if t_.op == 'const':
+                return (sval(t_), sval(t_))
+            if t_.op == 'concat' and t_.args[-1].op == 'const' and not (t_.args[-1].args[0] >> (t_.args[-1].w - 1)) & 1:
+                lo = hi = pos = 0
+                for p_ in t_.args:
+                    if p_.op == 'const':
+                        lo |= p_.args[0] << pos
+                        hi |= p_.args[0] << pos
+                    else:
+                        hi |= ((1 << p_.w) - 1) << pos
+                    pos += p_.w
+                return (lo, hi)
+            return None
+        ba, bb = bounds(args[1]), bounds(args[2])
+        if ba and bb:
+            ww = args[1].w
+            if args[0] == 'sadd':
+                rlo, rhi = ba[0] + bb[0], ba[1] + bb[1]
+            else:
+                rlo, rhi = ba[0] - bb[1], ba[1] - bb[0]
+            if -(1 << (ww - 1)) <= rlo and rhi < (1 << (ww - 1)):
+                return FALSE
+            if rhi < -(1 << (ww - 1)) or rlo >= (1 << (ww - 1)):
+                return TRUE
     if op == 'fneg':
         return fneg(args[0])
     if op == 'fabs':
